@@ -1320,14 +1320,15 @@ def verdict_of(status):
 @check('C02')
 def c02(ctx):
     # the inventory of map iterations is regenerated from the source before the obligations are checked
-    g = subprocess.run([sys.executable, os.path.join(core.VERIF, 'tools', 'gen_mapranges.py')], capture_output=True, text=True,
-                       env=dict(os.environ, VERIF_REPO=core.REPO))
-    if g.returncode != 0:
-        ctx.violation('the map-iteration inventory could not be regenerated from the source', {'broken': 'tools/gen_mapranges.py', 'log': g.stderr[-2000:]},
-                      found_input=False)
-    else:
-        ctx.notes.append('inventory: ' + g.stdout.strip())
-    ctx.check_proofs()
+    with core._Lock():   # regeneration and re-check are one step: another check must not regenerate the inventory from another tree in between
+        g = subprocess.run([sys.executable, os.path.join(core.VERIF, 'tools', 'gen_mapranges.py')], capture_output=True, text=True,
+                           env=dict(os.environ, VERIF_REPO=core.REPO))
+        if g.returncode != 0:
+            ctx.violation('the map-iteration inventory could not be regenerated from the source', {'broken': 'tools/gen_mapranges.py', 'log': g.stderr[-2000:]},
+                          found_input=False)
+        else:
+            ctx.notes.append('inventory: ' + g.stdout.strip())
+        ctx.check_proofs()
     rnd = ctx.rnd
     n = n_cases(ctx, 120, 2500)
     map_heavy = lambda r: gen.biased_request(r, method=r.choice(['choquetIntegral', 'owa', 'weightedSum', 'electreIII']),
@@ -1502,14 +1503,15 @@ def c09(ctx):
 
 @check('C10')
 def c10(ctx):
-    g = subprocess.run([sys.executable, os.path.join(core.VERIF, 'tools', 'gen_effects.py')], capture_output=True, text=True,
-                       env=dict(os.environ, VERIF_REPO=core.REPO))
-    if g.returncode != 0:
-        ctx.violation('the shared-write summary could not be regenerated from the source', {'broken': 'tools/gen_effects.py', 'log': g.stderr[-2000:]},
-                      found_input=False)
-    else:
-        ctx.notes.append('write summary: ' + g.stdout.strip())
-    ctx.check_proofs()
+    with core._Lock():
+        g = subprocess.run([sys.executable, os.path.join(core.VERIF, 'tools', 'gen_effects.py')], capture_output=True, text=True,
+                           env=dict(os.environ, VERIF_REPO=core.REPO))
+        if g.returncode != 0:
+            ctx.violation('the shared-write summary could not be regenerated from the source', {'broken': 'tools/gen_effects.py', 'log': g.stderr[-2000:]},
+                          found_input=False)
+        else:
+            ctx.notes.append('write summary: ' + g.stdout.strip())
+        ctx.check_proofs()
     rnd = ctx.rnd
     bins = [ctx.binary]
     race_pipe = None
